@@ -5,7 +5,8 @@
                                          (quick tier), undo, and record which checks caught it."""
 import json, os, re, subprocess, sys, shutil, glob, time
 VERIF = "/verif"
-env = dict(os.environ, GOFLAGS="-mod=mod", GOPROXY="off", GOSUMDB="off", GOTOOLCHAIN="local")
+env = dict(os.environ, GOFLAGS="-mod=mod", GOPROXY="off", GOSUMDB="off", GOTOOLCHAIN="local",
+           VERIF_EVIDENCE_DIR="/tmp/seed-evidence")  # runs against seeded changes must not overwrite the committed evidence
 
 
 def sh(cmd, cwd=None, timeout=1800):
